@@ -874,14 +874,34 @@ class Tensor:
             raise Unsupported('norm p=%r' % (p,))
         return sqrt(sum_(self * self, dim, keepdim))
 
-    def any(self):
+    def _truth_fold(self, op):
+        # element != 0 for every element, folded with OR (any) / AND (all); undecided elements give a condition
+        r = (op == 'and')
+        for p in self.a.reshape(-1):
+            c = p.cmp('ne', 0)
+            if isinstance(c, bool):
+                if op == 'or' and c:
+                    return True
+                if op == 'and' and not c:
+                    return False
+                continue
+            r = c if isinstance(r, bool) else ((r | c) if op == 'or' else (r & c))
+        return r
+
+    def any(self, dim=None):
+        if dim is not None:
+            raise Unsupported('any(dim)')
         if self.a.dtype == object:
-            raise Unsupported('any() of a symbolic tensor')
+            r = self._truth_fold('or')
+            return Tensor(np.array(r), bool_) if isinstance(r, bool) else _CondScalar(r)
         return Tensor(np.array(bool(self.a.any())), bool_)
 
-    def all(self):
+    def all(self, dim=None):
+        if dim is not None:
+            raise Unsupported('all(dim)')
         if self.a.dtype == object:
-            raise Unsupported('all() of a symbolic tensor')
+            r = self._truth_fold('and')
+            return Tensor(np.array(r), bool_) if isinstance(r, bool) else _CondScalar(r)
         return Tensor(np.array(bool(self.a.all())), bool_)
 
     def isnan(self):
@@ -1440,6 +1460,28 @@ def equal(a, b):
     if a.a.shape != b.a.shape:
         return False
     return allclose(a, b, 0, 0)
+
+
+def any_(t):
+    return t.any()
+
+
+def all_(t):
+    return t.all()
+
+
+class finfo:
+    def __init__(self, d=None):
+        d = d or get_default_dtype()
+        info = {'float32': (2.0 ** -23, 1.1754943508222875e-38, 3.4028234663852886e+38), 'float64': (2.0 ** -52, 2.2250738585072014e-308, 1.7976931348623157e+308),
+                'float16': (2.0 ** -10, 6.103515625e-05, 65504.0), 'bfloat16': (2.0 ** -7, 1.1754943508222875e-38, 3.3895313892515355e+38)}[d.name]
+        self.eps, self.tiny, self.max = info
+        self.min = -self.max
+        self.dtype = d.name
+
+
+def count_nonzero(t):
+    raise Unsupported('count_nonzero of a symbolic tensor')
 
 
 def manual_seed(s):
